@@ -134,16 +134,12 @@ def right_assoc(elements) -> Any:
     if not elements:
         return ()
 
-    def assoc(it) -> Any:
-        left = next(it)
-        try:
-            op = next(it)
-        except StopIteration:
-            return left
-        else:
-            return [op, left, assoc(it)]
-
-    return assoc(iter(elements))
+    it = iter(reversed(list(elements)))
+    expre = next(it)
+    for e in it:  # type: ignore
+        op = e
+        expre = [op, next(it), expre]  # type: ignore
+    return expre
 
 
 def rowselect[K, V](
